@@ -80,7 +80,12 @@ def impl(c):
     td2 = GT.mk_timing_data(dict(c["td"], offset=str(Decimal(c["td"]["offset"]) + Decimal("1.25"))))
     timed2 = [[float(tn.time), G.note_obs(tn.note)] for tn in time_notes(NoteData(txt), td2, UnhittableNotes(c["opt"]))]
     shift = len(timed2) == len(timed) and all(n1 == n2 and abs((t2 - t1) + 1.25) < 1e-9 for (t1, n1), (t2, n2) in zip(timed, timed2))
-    return {"hits": hits, "timed": timed, "offset_shift": bool(shift), "hit_unstable": hit_unstable[:5]}
+    # a timing data object that was used once with fewer events and then edited in place to hold these: the answers follow the edit
+    td3 = GT.mk_timing_data(dict(c["td"], stops=[], delays=[], warps=[]))
+    list(time_notes(NoteData(txt), td3, UnhittableNotes(c["opt"])))
+    td3.stops.extend(td.stops); td3.delays.extend(td.delays); td3.warps.extend(td.warps)
+    timed3 = [[float(tn.time), G.note_obs(tn.note)] for tn in time_notes(NoteData(txt), td3, UnhittableNotes(c["opt"]))]
+    return {"hits": hits, "timed": timed, "offset_shift": bool(shift), "hit_unstable": hit_unstable[:5], "after_edit_same": timed3 == timed}
 
 
 def requests(c):
@@ -141,6 +146,8 @@ def oracle(c, o):
             return "note %s timed at %r, exact time is %s" % (n, t, float(q))
     if o.get("hit_unstable"):
         return "hittable(%s) changed its answer when asked again on the same engine in another order" % Fraction(o["hit_unstable"][0], 48)
+    if o.get("after_edit_same") is False:
+        return "time_notes on a timing data object edited in place (stops, delays, warps added after an earlier call) differs from time_notes on a fresh object with the same events"
     if o.get("offset_shift") is False:
         return "the same notes timed under offset + 1.25 (same events, same process) did not all move by -1.25 s"
     return None
